@@ -1,6 +1,6 @@
 (* Properties/C13.v — flash-map reads and writes are exact and confined.
    Only statements; every proof is [exact <lemma of Proofs/FmapProofs.v>]. *)
-From Fiano Require Import Base.Bytes Gen.Consts Model.Fmap Proofs.FmapProofs.
+From Fiano Require Import Base.Bytes Gen.Consts Model.Fmap Proofs.FmapProofs Proofs.FmapWriteProofs.
 Open Scope Z_scope.
 
 (* writing a map and reading it back returns the same header, areas and offset,
@@ -17,6 +17,23 @@ Theorem C13_read_write_id : forall img m start,
   bytes_ok img = true -> read img = Ok (m, start) -> write img m start = img.
 Proof. exact read_write_id. Qed.
 Print Assumptions C13_read_write_id.
+
+(* Write itself is confined: where the map fits, exactly the bytes [start, start + length of the
+   encoding) change, they become the fixed little-endian layout enc_fmap, the image keeps its length *)
+Theorem C13_write_confined : forall img m start,
+  0 <= start -> start + zlen (enc_fmap m) <= zlen img ->
+  zlen (write img m start) = zlen img /\
+  sub start (zlen (enc_fmap m)) (write img m start) = enc_fmap m /\
+  forall k, (Z.of_nat k < start \/ start + zlen (enc_fmap m) <= Z.of_nat k) ->
+            nth_error (write img m start) k = nth_error img k.
+Proof. exact write_confined. Qed.
+Print Assumptions C13_write_confined.
+
+(* the encoding of a well-formed map is the header plus one fixed-size entry per area *)
+Theorem C13_enc_length : forall m, wf_map m = true ->
+  zlen (enc_fmap m) = hdr_len + area_len * h_nareas (f_hdr m).
+Proof. exact enc_fmap_length. Qed.
+Print Assumptions C13_enc_length.
 
 (* reading area i returns exactly the image bytes [offset, offset+size) *)
 Theorem C13_read_area_exact : forall m img i bs, read_area m img i = Ok bs ->
@@ -94,6 +111,10 @@ Definition ex_img : bytes := zrepeat 255 64 ++ [95; 95; 70; 77; 65; 80] ++ zrepe
 
 Example ex_wf : wf_map ex_map = true.
 Proof. vm_compute. reflexivity. Qed.
+
+Example ex_write_confined : zlen (enc_fmap ex_map) = 140 /\
+  sub 0 70 (write ex_img ex_map 70) = sub 0 70 ex_img /\ sub 210 160 (write ex_img ex_map 70) = sub 210 160 ex_img.
+Proof. vm_compute. repeat split; reflexivity. Qed.
 
 Example ex_write_read : read (write ex_img ex_map 70) = Ok (ex_map, 70).
 Proof. vm_compute. reflexivity. Qed.
